@@ -39,16 +39,16 @@ CFG = dict(
      timeout_quick=600, timeout_thorough=3000,
      shards_thorough=8,
      fuzz=[
-         dict(target="FuzzCronParse", seconds=40),
+         dict(target="FuzzCronParse", seconds=50),
          dict(target="FuzzTimeParse", seconds=20),
-         dict(target="FuzzParseKeyUse", seconds=45),
-         dict(target="FuzzPEM", seconds=40),
+         dict(target="FuzzParseKeyUse", seconds=60),
+         dict(target="FuzzPEM", seconds=50),
          dict(target="FuzzKeyWrapPadding", seconds=15),
          dict(target="FuzzAESCBCAEAD", seconds=20),
-         dict(target="FuzzCryptoAlgorithms", seconds=30),
-         dict(target="FuzzEncDecrypt", seconds=40),
+         dict(target="FuzzCryptoAlgorithms", seconds=40),
+         dict(target="FuzzEncDecrypt", seconds=50),
          dict(target="FuzzEncJSON", seconds=15),
-         dict(target="FuzzMetadata", seconds=40),
+         dict(target="FuzzMetadata", seconds=50),
          dict(target="FuzzConfig", seconds=30),
          dict(target="FuzzUtilsPEM", seconds=15),
          dict(target="FuzzUppercase", seconds=15),
